@@ -56,6 +56,7 @@ let () =
   let st = ref None in
   let case_id = ref "" in
   let json_kind = ref false in
+  let sampling_long = ref false and sampling_used = ref false in
   let case_bad = ref false in
   let ln = ref 0 in
   let mismatch what impl model =
@@ -69,7 +70,10 @@ let () =
     incr ln;
     let (lhs, rhs) = split_arrow line in
     match split_ws lhs with
-    | "CASE" :: id :: kind :: n :: _wrapper :: rest ->
+    | "CASE" :: id :: kind :: n :: wrapper :: rest ->
+        (* NewSamplingCollector with a long minimum interval: the first Add goes through, every later one returns nil
+           without reaching the wrapped collector (the documented policy of that wrapper) *)
+        sampling_long := (wrapper = "sample1h-" || wrapper = "syncsample1h-"); sampling_used := false;
         incr ncases; case_id := id; case_bad := false;
         last_r := ""; last_info := ""; last_op := ("", "", ""); total := []; case_viol := false;
         accepted := []; all_accepted := true; last_wd := None; case_kind := kind; accepted_all_docs := []; prev_wsizes := [];
@@ -98,7 +102,11 @@ let () =
              incr nops;
              let do_step o = let (s', ob) = x_step s o in st := Some s'; ob in
              (match tag, args with
+              | ("A" | "B"), [_] when !sampling_long && !sampling_used ->
+                  last_op := ("I", "", "");
+                  if rhs <> "ok" then mismatch "add-skipped-by-the-sampling-wrapper" rhs "ok"
               | "A", [h] ->
+                  sampling_used := true;
                   last_op := ("A", h, rhs);
                   (match parse_doc h with Some d -> accepted_all_docs := !accepted_all_docs @ [d] | None -> ());
                   all_accepted := !all_accepted && rhs = "ok";
@@ -114,6 +122,7 @@ let () =
                             if ares_string r <> rhs && not reworded then mismatch "add" rhs (ares_string r)
                         | _ -> ()))
               | "B", [_] -> (* unreadable input: rejected, state unchanged *)
+                  sampling_used := true;
                   last_op := ("B", "", rhs);
                   (match do_step OAddBad with
                    | BAdd r -> let m = (match r with RFlush -> "flush" | _ -> "other") in
